@@ -112,7 +112,7 @@ func c14RunOnce(root string, p *proj.Project) (*runSnap, *proj.RunResult) {
 func c14Runs(c *vh.Ctx, metas []cfgMeta) {
 	root := filepath.Join(c.Scratch, "runs")
 	keys := runKeys()
-	dflt := reflect.ValueOf(hermes.NewDefaultConfig())
+	dflt := reflect.ValueOf(documentedConfig()) // the documented defaults (ConfigDoc.lean), not the code under test
 	defaultText := func(name string) string {
 		f := dflt.FieldByName(name)
 		switch f.Kind() {
